@@ -57,3 +57,9 @@ pub fn vx_merge_spans(m: &mut CallMap, k: String, v: Vec<Span>)
 pub fn vx_clone_nodes(v: &Vec<Node>) -> (r: Vec<Node>) ensures r@ == v@ { unimplemented!() }
 #[verifier::external_body]
 pub fn vx_clone_string(s: &String) -> (r: String) ensures r@ == s@ { unimplemented!() }
+impl HashMap<String, Vec<Span>> {
+    #[verifier::external_body]
+    pub fn insert(&mut self, k: String, v: Vec<Span>) -> (r: Option<Vec<Span>>)
+        ensures calls(*final(self)) == calls(*old(self)).insert(k@, v@)
+    { unimplemented!() }
+}
